@@ -12,7 +12,9 @@ def _cancel_streams(tier):
     n = 34 + (500 if tier == "quick" else 12000)
     return [("cancel", ["-n", str(n)]), ("ctxsplit", ["-n", "40" if tier == "quick" else "600"]),
             # the context handed to a handler is its connection's: live while connected, cancelled once it has ended
-            ("connctx", ["-n", "12" if tier == "quick" else "200"])]
+            ("connctx", ["-n", "12" if tier == "quick" else "200"]),
+            # Read and Write at the same time on an upgraded connection: each completes with its own result
+            ("duplex", ["-n", "12" if tier == "quick" else "200"])]
 
 
 PROPS = {
